@@ -3,7 +3,7 @@
    GlobalLipschitz hold on such grids from the smoothness of f and the spacing alone. *)
 From Coq Require Import Reals List Lra Lia Arith Bool.
 From Coquelicot Require Import Coquelicot.
-From Yad Require Import Base Interp InterpTheorems InterpReal InterpDeriv GlobalInterp GlobalLipschitz GridExample.
+From Yad Require Import Base Interp InterpTheorems InterpReal InterpDeriv GlobalInterp GlobalLipschitz GridExample Conv ConvGen ConvError.
 Import ListNotations.
 Open Scope R_scope.
 
@@ -69,4 +69,23 @@ Proof.
   - intros w Hw. apply HM. cbn [gex length Nat.sub nth] in Hw. cbn [gex nth]. lra.
   - intros i Hi. destruct (Hb i Hi) as [Hh _]. rewrite (block_d1 _ _ Hi) in Hh. cbn [fst snd] in Hh. replace (i + 1)%nat with (S i) in Hh by lia. exact Hh.
   - cbn [gex length Nat.sub nth]. lra.
+Qed.
+(* the prediction itself: convolution of any kernel triple with the linear interpolant vs with f, no Lebesgue hypothesis left *)
+Theorem prediction_error_linear_grid (k : rsl) ns f M h hmin x W Ws v w : sorted ns -> (1 < length ns)%nat -> 0 < hmin ->
+  nth 0 ns 0 <= x -> 0 < x < 1 -> nth (length ns - 1) ns 0 = 1 ->
+  (forall u, nth 0 ns 0 <= u <= 1 -> forall j, (j <= 2)%nat -> ex_derive_n f j u) ->
+  (forall u, nth 0 ns 0 < u < 1 -> Rabs (Derive_n f 2 u) <= M) ->
+  (forall i, (i + 1 < length ns)%nat -> hmin <= nth (S i) ns 0 - nth i ns 0 <= h) ->
+  is_conv k (Iglobal ns 1 f) x v -> is_conv k f x w ->
+  is_RInt_gen (fun z => Rabs (r_reg k z) / z) (at_point x) (at_left 1) W ->
+  is_RInt_gen (fun z => Rabs (r_sing k z) * ((1 - z) / (z * z))) (at_point x) (at_left 1) Ws ->
+  Rabs (v - w) <= (W + Rabs (r_loc k x)) * ((1 + 1) * (M * h ^ 2 / INR (fact 2)))
+                  + Ws * ((2 / hmin * (M * h ^ 2 / INR (fact 2)) + M * h ^ 1 / INR (fact 1)) * x + (1 + 1) * (M * h ^ 2 / INR (fact 2))).
+Proof.
+  intros Hs Hn Hm Hx0 Hx Hlast Hd HM Hh Hv Hw HW HWs.
+  assert (L0 : 0 <= 2 / hmin) by (apply Rmult_le_pos; [lra | left; apply Rinv_0_lt_compat, Hm]).
+  apply (prediction_error_smooth_grid k ns 1 f M 1 (2 / hmin) h x W Ws v w Hs ltac:(lia) Hn ltac:(lra) L0 Hx0 Hx Hlast Hd HM); try assumption.
+  intros i Hi. rewrite (block_d1 _ _ Hi). cbn [fst snd]. replace (i + 1)%nat with (S i) by lia. split; [apply Hh, Hi|].
+  intros u Hu. destruct (linear_grid_lebesgue ns i u Hs Hi Hu) as [E1 E2]. rewrite E1, E2. split; [lra|].
+  destruct (Hh i Hi) as [Hlo _]. unfold Rdiv. apply Rmult_le_compat_l; [lra|]. apply Rinv_le_contravar; assumption.
 Qed.
